@@ -38,7 +38,7 @@ m = {
  ],
  "checks": [],
  "not_applicable": [],
- "notes": "Technique: machine-checked proof in Lean 4 of a hand-written executable model, tied to the code by a correspondence check on every run (DESIGN.md). known_findings.json lists recorded genuine defects and the three fix: commits."
+ "notes": "Technique: machine-checked proof in Lean 4 of a hand-written executable model, tied to the code by a correspondence check on every run (DESIGN.md). known_findings.json lists recorded genuine defects and the four fix: commits (826920e, c6a1e56, f3134ea, dec7df0)."
 }
 for pid in sorted(PROPS):
     text, ref = TEXT[pid]
